@@ -286,6 +286,13 @@ class disassembler(object):
         return (f, l)
 
     def __call__(self, bytestring, **kargs):
+        try:
+            return self._decode(bytestring, **kargs)
+        finally:
+            # a pending prefix instruction never survives a call, even if a hook raised
+            self.__i = None
+
+    def _decode(self, bytestring, **kargs):
         e = self.endian(**kargs)
         adjust = lambda x: x.ival
         bs = bytestring[0:self.maxlen]
@@ -310,7 +317,7 @@ class disassembler(object):
                     if i.spec.pfx is True:
                         if self.__i is None:
                             self.__i = i
-                        return self(bytestring[s.mask.size // 8 :], **kargs)
+                        return self._decode(bytestring[s.mask.size // 8 :], **kargs)
                     elif i.spec.pfx == "xdata":
                         i.xdata(i,**kargs)
                     self.__i = None
